@@ -61,6 +61,7 @@ type Scenario struct {
 	Pipeline               bool
 	NotifyCh               bool
 	SlowFSM                bool // FSM applications are granted one by one by the environment (after scripted steps, before timers)
+	Liveness               bool // at the end of the run every call must have resolved if it was issued long ago (virtual time and events)
 	Fine                   bool // branch on thread steps (preemption bounded)
 	RCL                    bool // RestoreCommittedLogs
 	NoStoreFaultBeforeStep int  // store faults only count from this script position on
